@@ -2607,6 +2607,14 @@ static size_t ZSTD_copyCCtx_internal(ZSTD_CCtx* dstCCtx,
         ZSTD_memcpy(dstCCtx->blockState.matchState.hashTable3,
                srcCCtx->blockState.matchState.hashTable3,
                h3Size * sizeof(U32));
+        /* the row match finder reads the hash table through its tag table and hash salt */
+        if (ZSTD_rowMatchFinderUsed(srcCCtx->appliedParams.cParams.strategy, srcCCtx->appliedParams.useRowMatchFinder)) {
+            size_t const tagTableSize = hSize;
+            ZSTD_memcpy(dstCCtx->blockState.matchState.tagTable,
+                   srcCCtx->blockState.matchState.tagTable,
+                   tagTableSize);
+            dstCCtx->blockState.matchState.hashSalt = srcCCtx->blockState.matchState.hashSalt;
+        }
     }
 
     ZSTD_cwksp_mark_tables_clean(&dstCCtx->workspace);
